@@ -361,6 +361,22 @@ fn c01(thorough: bool) -> Report {
     r
 }
 
+/// known finding (C01): DateTime.utc_dir is a `char` written as ONE octet — characters above U+00FF do not survive
+fn c01_utc_dir(_thorough: bool) -> Report {
+    let mut r = Report::new("c01_utc_dir");
+    for dir in ['+', '-', '\u{e9}', '\u{20ac}', '\u{1f5a8}'] {
+        let v = IppValue::DateTime { year: 2024, month: 1, day: 2, hour: 3, minutes: 4, seconds: 5, deci_seconds: 6, utc_dir: dir, utc_hours: 1, utc_mins: 0 };
+        let mut b = v.to_bytes();
+        r.case(&b);
+        let _ = bytes::Buf::get_u16(&mut b);
+        match IppValue::parse(0x31, b) {
+            Ok(back) if back == v => {}
+            other => { r.fail(format!("DateTime with utc_dir {dir:?} (U+{:04X}) comes back as {other:?}", dir as u32)); return r; }
+        }
+    }
+    r
+}
+
 // ---------------------------------------------------------------------------------------------- C09 / C10 / container model
 fn first_group_names(b: &[u8]) -> Option<Vec<String>> {
     let (m, _) = decode(b).ok()?;
@@ -559,7 +575,7 @@ fn main() {
     let mut failed = false;
     for c in args.get(1).map(|s| s.as_str()).unwrap_or("").split(',') {
         let rep = match c {
-            "c01" => c01(thorough), "c02" => c02(thorough), "c03" => c03(thorough), "c04" => c04(thorough), "c05" => c05(thorough),
+            "c01" => c01(thorough), "c01_utc_dir" => c01_utc_dir(thorough), "c02" => c02(thorough), "c03" => c03(thorough), "c04" => c04(thorough), "c05" => c05(thorough),
             "c06" => c06(thorough), "c07" => c07(thorough), "c09" => c09(thorough), "c10" => c10(thorough), "container" => container(thorough),
             _ => continue,
         };
